@@ -66,7 +66,8 @@ def run_tlc(module, cfg, workdir, workers=1, simulate=None, depth=None,
     meta = tempfile.mkdtemp(prefix="meta_", dir=workdir)
     cfgpath = cfg if os.path.isabs(cfg) else os.path.join(SPEC, cfg)
     modpath = module if os.path.isabs(module) else os.path.join(SPEC, module + ".tla")
-    jopts = ["-XX:+UseParallelGC", "-Xss16m", "-DTLA-Library=" + SPEC]
+    # bounded heap: several TLC instances may run side by side (default would be 1/4 of RAM each)
+    jopts = ["-XX:+UseParallelGC", "-Xss16m", "-Xmx" + os.environ.get("VERIF_XMX", "8g"), "-DTLA-Library=" + SPEC]
     if dfs:
         jopts.append("-Dtlc2.tool.queue.IStateQueue=StateDeque")
     cmd = ["java"] + jopts + ["-cp", TLA_JAR + ":" + TLA_DEPS, "tlc2.TLC",
